@@ -14,7 +14,8 @@ EXPLANATION = (
     "it; SID: the id registered in a session map is the id the paired writer stamps / the callback removes / the lookup uses. "
     "Decides these shapes, not delivery across the network."
     ' REFILL: the buffer handed to read() by the inline channel is a whole buffer of positive constant length; FRAG-ID: fragment ids come from a counter shared by all writers of a connection.'
-    ' ERR also requires that no Ok(Some(frame)) is reachable from the Err edge of a receive result before the next receive; LBL includes the session-target label of listener-side sessions.')
+    ' ERR also requires that no Ok(Some(frame)) is reachable from the Err edge of a receive result before the next receive; LBL includes the session-target label of listener-side sessions.'
+    ' HEAD: Frame::read_head and Frame::from_buffer agree on header fields and size, and the frame length is not computed at a width where ATTR_LEN + BODY_LEN can wrap (a sum formed at u16 and widened afterwards is not that sum).')
 RULE_TEXT = "instances = frame locals, receive sites, writer impls, session maps"
 TRUSTED = ["kernel UDP demultiplexing between listener and connected session sockets", "mpsc channels deliver what is sent"]
 NOT_DECIDED = ["delivery as exactly one datagram across the network", "cross-session behaviour under concurrency", "kernel demultiplexing"]
@@ -177,6 +178,10 @@ def run(chk, prog):
     rule_refill(chk, prog)
     rule_session_label(chk, prog)
     rule_frag_id(chk, prog)
+    # the inline (stream) channel cuts frames by Frame::read_head: its length arithmetic must agree with from_buffer and must not wrap
+    # for a maximum-size datagram with a long address label
+    from .c12 import rule_head_agreement
+    rule_head_agreement(chk, prog, "HEAD")
     # ---------------------------------------------------------------- LIN
     accept_fns = []
     for pat in (r"^listeners::reverse::ReverseProxyListener::udp_accept$", r"^listeners::tproxy::TProxyListener::udp_accept$"):
